@@ -236,8 +236,17 @@ pub fn pattern_files(pat: u8, salt: u32, n: usize) -> Vec<usize> {
     }
 }
 
+/// Histories whose seed is 4 mod 5 draw their keys from a pool of three: the same content
+/// shipped under several paths / the same encoding key at several indices (real manifests have
+/// dozens of such keys). Everything else about a file (size, priority, path) stays its own.
+pub fn shared_keys(seed: u64) -> bool {
+    seed % 5 == 4
+}
+
 pub fn key_for(seed: u64, uid: u32, gen_no: u32) -> [u8; 16] {
     // unique per (uid, gen_no): the pair is embedded verbatim
+    // (uids from 2^31 up are the harness's "no such file" probes: never folded)
+    let (uid, gen_no) = if shared_keys(seed) && uid < 1 << 31 { (uid % 3, 0) } else { (uid, gen_no) };
     let mut k = [0u8; 16];
     k[0..4].copy_from_slice(&uid.to_be_bytes());
     k[4..8].copy_from_slice(&gen_no.to_be_bytes());
